@@ -99,12 +99,12 @@ func newGroups() *groups {
 }
 
 func (g *groups) add(p *spectrace.Pair, tr spectrace.Trace) {
-	// one TLC run judges at most ~2500 steps: the trace module is read into memory as a whole
+	// one TLC run judges at most ~4000 steps: the trace module is read into memory as a whole
 	base := strings.Join(p.Constants, ",")
 	if g.chunk == nil {
 		g.chunk, g.steps = map[string]int{}, map[string]int{}
 	}
-	if g.steps[base] > 0 && g.steps[base]+len(tr.Steps) > 2500 {
+	if g.steps[base] > 0 && g.steps[base]+len(tr.Steps) > 4000 {
 		g.chunk[base]++
 		g.steps[base] = 0
 	}
